@@ -922,8 +922,7 @@ where
             let atom = build(atom, env)?;
             let mut bops = vec![];
             for op in ops {
-                let sym = op.sym;
-                let j = just::<_, I, X<E>>(I::Token::from_ch(sym)).map(move |_| Val::S(vec![sym]));
+                let j = build(&op.g, env)?;
                 let w = |v: Val, e: &mut chumsky::input::MapExtra<'a, '_, I, X<E>>| {
                     let sp = e.span().se();
                     let c = e.ctx().clone();
